@@ -57,6 +57,13 @@ def _eligible(var, lam, fn):
     stmts = lam["body"].get("c", [])
     if not rets:
         return "block"
+    if all(not isinstance(r.get("value"), dict) for r in rets):
+        # a void body whose `return;` statements sit in tail positions only: `if(c){...; return;} rest` is `if(c){...} else {rest}`
+        conv = _returns_to_assignments(stmts, None, void=True)
+        if conv is not None:
+            lam["body"] = dict(lam["body"], c=conv, void_returns_folded=True)
+            return "block"
+        return None
     if len(stmts) == 1 and stmts[0].get("k") == "ReturnStmt" and isinstance(stmts[0].get("value"), dict) and len(rets) == 1:
         return "expr"
     if len(rets) == 1 and stmts and stmts[-1] is rets[0] and isinstance(rets[0].get("value"), dict):
@@ -261,7 +268,7 @@ def _always_returns(b):
     return False
 
 
-def _returns_to_assignments(stmts, setter):
+def _returns_to_assignments(stmts, setter, void=False):
     """statement list in which `return E;` occurs only in tail position of the list or of if-branches: the same list with every
     `return E;` replaced by setter(E) and the statements that follow an `if(c){...return}` moved into its else branch.  None if a
     return sits anywhere else (inside a loop, a switch, a try, a partially returning if)."""
@@ -270,6 +277,8 @@ def _returns_to_assignments(stmts, setter):
         k = s_.get("k")
         if k == "ReturnStmt":
             if not isinstance(s_.get("value"), dict):
+                return out if void else None
+            if void:
                 return None
             a = setter(s_["value"], s_.get("l"))
             return None if a is None else out + a
@@ -278,7 +287,7 @@ def _returns_to_assignments(stmts, setter):
             out.append(s_)
             continue
         if k == "CompoundStmt":
-            inner = _returns_to_assignments(s_.get("c", []), setter)
+            inner = _returns_to_assignments(s_.get("c", []), setter, void)
             if inner is None or not _always_returns(s_):
                 return None
             return out + [dict(s_, c=inner)]
@@ -289,19 +298,19 @@ def _returns_to_assignments(stmts, setter):
             else_b = s_["else"].get("c", []) if s_["else"].get("k") == "CompoundStmt" else [s_["else"]]
             tr, er = _always_returns(s_["then"]), _always_returns(s_["else"])
             if tr and er:
-                t2, e2 = _returns_to_assignments(then_b, setter), _returns_to_assignments(else_b, setter)
+                t2, e2 = _returns_to_assignments(then_b, setter, void), _returns_to_assignments(else_b, setter, void)
                 if t2 is None or e2 is None:
                     return None
                 return out + [dict(s_, then={"k": "CompoundStmt", "l": s_.get("l"), "c": t2}, **{"else": {"k": "CompoundStmt", "l": s_.get("l"), "c": e2}})]
             return None
         if not _always_returns(s_["then"]):
             return None
-        t2 = _returns_to_assignments(then_b, setter)
-        e2 = _returns_to_assignments(stmts[i + 1:], setter)
+        t2 = _returns_to_assignments(then_b, setter, void)
+        e2 = _returns_to_assignments(stmts[i + 1:], setter, void)
         if t2 is None or e2 is None:
             return None
         return out + [dict(s_, then={"k": "CompoundStmt", "l": s_.get("l"), "c": t2}, **{"else": {"k": "CompoundStmt", "l": s_.get("l"), "c": e2}})]
-    return None      # falls off the end without a value
+    return out if void else None      # falls off the end: fine for a void body, no value otherwise
 
 
 def _multi_ok(lam):
